@@ -26,6 +26,46 @@ def _block_of(stmt):
     return None
 
 
+def cursor_sources(chk, ps, cursor, stack, rule):
+    # the cursor only moves up to its parent or down into a group created for the current segment; the stack is only
+    # re-bound to what the search returned: re-entering a group that was already left would reorder segments
+    for n in own_nodes(ps.node):
+        if not isinstance(n, ast.Assign):
+            continue
+        tg = n.targets[0]
+        names = [norm(e) for e in tg.elts] if isinstance(tg, ast.Tuple) else [norm(tg)]
+        vals = list(n.value.elts) if isinstance(tg, ast.Tuple) and isinstance(n.value, ast.Tuple) and \
+            len(n.value.elts) == len(names) else [n.value] * len(names)
+        for nm, v in zip(names, vals):
+            if nm == cursor:
+                ok = (isinstance(v, ast.Constant) and v.value is None) or norm(v) == cursor + '.parent' or (
+                    isinstance(v, ast.Name) and any(isinstance(a, ast.Assign) and norm(a.targets[0]) == v.id and
+                                                    isinstance(a.value, ast.Call) and norm(a.value.func) == 'Group'
+                                                    for a in own_nodes(ps.node)))
+                chk.ob(rule, 'cursor assignment `%s`' % norm(n)[:60], ok,
+                       'the cursor is set from something other than None / its parent / a group created for this segment: a group '
+                       'that was already left can be re-entered, which attaches later segments before earlier ones',
+                       '%s:%d' % (ps.module.relpath, n.lineno), key='%s|cursor-source|%s' % (rule, norm(v)[:40]))
+            if nm == stack:
+                ok = isinstance(v, ast.List) or (isinstance(v, ast.Call) and norm(v.func) == '_get_segment_reference')
+                chk.ob(rule, 'stack assignment `%s`' % norm(n)[:60], ok,
+                       'the reference stack is re-bound from something other than its initial value / the search result',
+                       '%s:%d' % (ps.module.relpath, n.lineno), key='%s|stack-source|%s' % (rule, norm(v)[:40]))
+
+
+
+def find_cursor_and_stack(ps):
+    stack = cursor = None
+    for n in own_nodes(ps.node):
+        if isinstance(n, ast.Assign) and isinstance(n.value, ast.List) and len(n.value.elts) == 1 and \
+                isinstance(n.value.elts[0], ast.Tuple) and 'references' in norm(n.value):
+            stack = norm(n.targets[0])
+        if isinstance(n, ast.Assign) and isinstance(n.value, ast.Attribute) and n.value.attr == 'parent' and \
+                norm(n.targets[0]) == norm(n.value.value):
+            cursor = norm(n.targets[0])
+    return cursor, stack
+
+
 def run(chk):
     c = ctxmod.get()
     ix, cg, te = c.index, c.cg, c.te
@@ -88,6 +128,40 @@ def run(chk):
         chk.ob('C08-S', 'the cursor enters `%s` only after it was attached' % gname, attached,
                '`%s = %s` is not preceded in its block by attaching `%s` to the result list or the previous cursor' % (
                    cursor, gname, gname), '%s:%d' % (ps.module.relpath, dn.lineno), key='C08-S|down|%d' % len(before))
+
+    cursor_sources(chk, ps, cursor, stack, 'C08-S')
+
+    # ---- N: a recurring non-repeatable member opens a new repetition of the current group
+    chk.rule('C08-N', 'a new repetition of the current group is opened when the segment name already occurs among ALL children of '
+                      'the current group and its maximum cardinality there is 1')
+    rep = None
+    for n in own_nodes(ps.node):
+        if isinstance(n, ast.If) and any(isinstance(x, ast.Call) and norm(x.func) == 'Group' and x.args and
+                                         norm(x.args[0]) == cursor + '.name' for b in n.body for x in ast.walk(b)):
+            rep = n
+    if rep is None:
+        chk.fail('C08-N', 'repetition branch', 'no branch creates Group(%s.name, ...) any more: a recurring non-repeatable member '
+                 'is added to the same group instance' % cursor, ps.loc, key='C08-N|branch')
+    else:
+        conj = rep.test.values if isinstance(rep.test, ast.BoolOp) and isinstance(rep.test.op, ast.And) else [rep.test]
+        member = False
+        card = False
+        for t in conj:
+            if isinstance(t, ast.Compare) and len(t.ops) == 1 and isinstance(t.ops[0], ast.In) and norm(t.left) == 'segment_name':
+                r = t.comparators[0]
+                if isinstance(r, (ast.ListComp, ast.SetComp, ast.GeneratorExp)) and norm(r.generators[0].iter) == cursor + '.children' \
+                        and not r.generators[0].ifs and norm(r.elt).endswith('.name'):
+                    member = True
+                if norm(r) in (cursor + '.children.indexes',):
+                    member = True
+            if isinstance(t, ast.Compare) and len(t.ops) == 1 and isinstance(t.ops[0], ast.Eq) and \
+                    norm(t.left) == cursor + '.repetitions[segment_name][1]' and norm(t.comparators[0]) == '1':
+                card = True
+        chk.ob('C08-N', 'the recurrence test looks at every child of the current group', member,
+               'condition `%s` does not test segment_name against all children of the current group' % norm(rep.test)[:120],
+               '%s:%d' % (ps.module.relpath, rep.lineno), key='C08-N|membership')
+        chk.ob('C08-N', 'only a non-repeatable member (max cardinality 1) opens a new repetition', card,
+               'condition `%s`' % norm(rep.test)[:120], '%s:%d' % (ps.module.relpath, rep.lineno), key='C08-N|cardinality')
 
     # ---- B
     g = cfg_of(gr)
